@@ -39,9 +39,9 @@ def preload():
 def gen_case(rng, tier, idx):
     big = rng.choice((None, None, None, None, (-10.0, -20.0, -40.0, -5.0, -60.0), (-25.0, 30.0, -50.0, 10.0), (0.0,)))     # large magnitudes and all-zero rewards too
     if rng.random() < 0.3:
-        spec = gen_mdp_spec(rng, extreme=True, leftover_abs=rng.random() < 0.12, **_size(rng), proper=True, discounts=(1.0,), rewards=big or rng.choice((None, (-2.0, -1.0, -1.0, 0.0, 1.0, 0.5))))
+        spec = gen_mdp_spec(rng, extreme=True, huge=True, leftover_abs=rng.random() < 0.12, **_size(rng), proper=True, discounts=(1.0,), rewards=big or rng.choice((None, (-2.0, -1.0, -1.0, 0.0, 1.0, 0.5))))
     else:
-        spec = gen_mdp_spec(rng, extreme=True, leftover_abs=rng.random() < 0.12, **_size(rng), proper=rng.random() < 0.5, discounts=(0.999,) if rng.random() < 0.02 else (0.5, 0.8, 0.9, 0.95, 0.99), rewards=big, uniform_actions=rng.random() < 0.25)
+        spec = gen_mdp_spec(rng, extreme=True, huge=True, leftover_abs=rng.random() < 0.12, **_size(rng), proper=rng.random() < 0.5, discounts=(0.999,) if rng.random() < 0.02 else (0.5, 0.8, 0.9, 0.95, 0.99), rewards=big, uniform_actions=rng.random() < 0.25)
     h = gen_heuristic(rng)
     h['at_abs'] = abs(h['at_abs'])       # C03's heuristics never under-estimate, absorbing states (worth 0) included
     cfg = dict(heur=h, rao=rng.random() < 0.7, rno=rng.random() < 0.7, seed=rng.choice((0, 1, 2, 77, None)),
@@ -91,8 +91,13 @@ def _execute(lao, view, cfg, ctx, sched):
     v0 = sum(p * Vs[s] for s, p in view.init.items())
     state = dict(n_expanded=-1, it=0, main=True)
 
+    # tolerances are relative to the value in question AND to the scale of the problem's values: LAO*'s linear solves (and the
+    # reference's) carry an error of ~1e-14 of the largest value in the system, which at a state worth 0 among values of
+    # 1e9 is 1e-5
+    vscale = max([abs(float(v)) for v in Vs] + [abs(float(x)) for x in view.R.values()] + [0.0]) / (1 - view.gamma if view.gamma < 1 else 1.0)
+
     def lb(s):
-        return Vs[s] - TOL * (1 + abs(Vs[s]))
+        return Vs[s] - TOL * (1 + abs(Vs[s])) - 1e-11 * vscale
 
     class L(lao.LAOStarEventListener):
         def main_lao_star_loop(self, lv):
@@ -181,7 +186,7 @@ def _execute(lao, view, cfg, ctx, sched):
     def judge(r, tag):
         ctx.check(bool(r.converged), 'converged', f"{tag}LAO* did not report convergence")
         iv = float(r.initial_value)
-        ctx.check(close6(iv, v0), 'initial-value', lambda: f"{tag}initial_value {iv!r} != optimal value of the initial distribution {v0!r}")
+        ctx.check(close6(iv, v0) or abs(iv - v0) <= 1e-11 * vscale, 'initial-value', lambda: f"{tag}initial_value {iv!r} != optimal value of the initial distribution {v0!r}")
         try:
             svm = {sid[s]: float(v) for s, v in r.state_value_map.items()}
         except (KeyError, TypeError, AttributeError) as e:
@@ -218,7 +223,7 @@ def _execute(lao, view, cfg, ctx, sched):
         except np.linalg.LinAlgError:
             raise Violation('policy-optimal', "returned policy never reaches an absorbing state from some state (singular evaluation)")
         vp0 = sum(p * Vp[s] for s, p in view.init.items())
-        ctx.check(close6(vp0, v0), 'policy-optimal', lambda: f"{tag}exactly evaluated return of the returned policy {vp0!r} != optimum {v0!r}")
+        ctx.check(close6(vp0, v0) or abs(vp0 - v0) <= 1e-11 * vscale, 'policy-optimal', lambda: f"{tag}exactly evaluated return of the returned policy {vp0!r} != optimum {v0!r}")
 
     n0 = state.get('log0', 0)
     judge(r, '')
